@@ -2005,6 +2005,11 @@ def c15(ctx):
                 [d + "/.." for d in dirs[:3] if safe(d)] + [d + "/../..." for d in dirs[:2] if safe(d)] + \
                 [d + "/../" + d2 for d in dirs[:2] for d2 in dirs[:2] if safe(d) and safe(d2) and "/" not in d2] + \
                 [os.path.join(root, d) + "/.." for d in dirs[:1] if safe(d)]
+        # the same entries named absolutely, symbolic links (to files, to directories, dangling) first: how an argument is
+        # resolved must not depend on whether it was given relative to the working directory or not
+        links = [p for p, v in paths if isinstance(v, tuple) and safe(p)]
+        cands += [os.path.join(root, p) for p in links[:4]] + [os.path.join(root, p) + "/..." for p in links[:2]] + \
+                 [p + "/..." for p in links[:2]] + [os.path.join(root, f) for f in files[:2] if safe(f)]
         args = [rng.choice(cands) for _ in range(rng.randint(1, 4))]
         if rng.random() < 0.05:
             args.append("does_not_exist")
@@ -2680,6 +2685,45 @@ def c08(ctx):
                 ctx.violation(f"the gopatch binary crashed (exit {code}): {err[-300:]}", {"input": {"patches": c["patches"], "src": c["src"]}})
             elif code == 1 and not err.strip():
                 ctx.violation("non-zero exit without a diagnostic", {"input": {"patches": c["patches"], "src": c["src"]}})
+    # the other ways a patch reaches the parser: a list of patch files (-P) with every odd line a list may hold, and stdin
+    good = "@@\nvar x expression\n@@\n-foo(x)\n+bar(x)\n"
+    LISTS = ["p.patch\n", "p.patch", "\np.patch\n\n", "  \np.patch\n", "\t\n", " ", "\r\n", "p.patch\r\n\r\n", "# a comment\np.patch\n",
+             "#\n", "p.patch\n   \n", "  p.patch  \n", "p.patch\n\x00\n", "\xff\xfe\n", "missing.patch\n", "p.patch\np.patch\n", ".\n", "/\n",
+             "p.patch\n" * 40, "\n" * 200, " " * 5000 + "\n"]
+    def list_one(k):
+        root = ctx.scratch("c08list")
+        cl.write_tree(root, {"p.patch": good, "a.go": "package a\n\nfunc f() { foo(1) }\n"})
+        with open(os.path.join(root, "list.txt"), "wb") as f:
+            f.write(LISTS[k].encode("latin-1"))
+        code, out, err = cl.gopatch(ctx.gopatch, root, ["-P", "list.txt", "--print-only", "a.go"], timeout=20)
+        # the same patch text on stdin, cut at every tenth byte
+        res = [("-P " + repr(LISTS[k][:40]), code, err.decode("utf-8", "replace"))]
+        shutil.rmtree(root, ignore_errors=True)
+        return res
+    def stdin_one(cut):
+        root = ctx.scratch("c08in")
+        cl.write_tree(root, {"a.go": "package a\n\nfunc f() { foo(1) }\n"})
+        try:
+            r = subprocess.run([ctx.gopatch, "--print-only", "a.go"], cwd=root, input=good[:cut].encode(), stdout=subprocess.PIPE,
+                               stderr=subprocess.PIPE, timeout=20)
+            res = [(f"stdin, first {cut} bytes of a valid patch", r.returncode, r.stderr.decode("utf-8", "replace"))]
+        except subprocess.TimeoutExpired:
+            res = [(f"stdin, first {cut} bytes of a valid patch", "timeout", "")]
+        shutil.rmtree(root, ignore_errors=True)
+        return res
+    with ThreadPoolExecutor(max_workers=16) as ex:
+        outcomes = list(ex.map(list_one, range(len(LISTS)))) + list(ex.map(stdin_one, range(0, len(good) + 1, 3)))
+    for res in outcomes:
+        for what, code, err in res:
+            ctx.evaluations += 1
+            ctx.count("patch_sources_other_than_-p")
+            ctx.nontrivial.add("src:" + what)
+            if code == "timeout":
+                ctx.violation(f"the gopatch binary did not terminate within 20 s ({what})", {"input": {"how": what, "patch": good}})
+            elif code not in (0, 1) or "panic:" in err or "goroutine " in err:
+                ctx.violation(f"the gopatch binary crashed (exit {code}) on {what}: {err[-300:]}", {"input": {"how": what, "patch": good}})
+            elif code == 1 and not err.strip():
+                ctx.violation(f"non-zero exit without a diagnostic on {what}", {"input": {"how": what, "patch": good}})
     # the "..." scanner (augment.find/rewrite) vs the Lean model Fnd.find/rewrite, incl. truncated input
     def sides(patch):
         try:
@@ -2866,6 +2910,7 @@ def c11(ctx):
             cid = f"i{len(cases)}"
             cases.append({"id": cid, "patches": inp["patches"], "src": inp["src"]})
             want[cid] = sorted((cl.sx_unquote(i[1]), cl.sx_unquote(i[2])) for i in (model.get("imports") or []))
+    c11_grouped(ctx, cases)
     cases = cases[: (150 if ctx.tier == "quick" else 5000)]
     byid = {c["id"]: c for c in cases}
     for o in run_api(ctx, cases, rep=0):
@@ -2878,6 +2923,50 @@ def c11(ctx):
             c = byid[o["id"]]
             ctx.violation(f"library API: import declarations of the result {got} differ from the specification {want[o['id']]}",
                           {"input": {"patches": c["patches"], "src": c["src"]}, "api_output": o["out"][:1500]})
+
+def c11_grouped(ctx, cases):
+    """several files in one run, importing the same packages under different names: each file's imports must come out as
+    in a run of its own (what a change captured in one file must not leak into the next)"""
+    rng = random.Random(ctx.seed + 11)
+    picked = [c for c in cases if re.search(r"^[-+ ]import \w+ ", c["patches"][0], re.M) and re.search(r'^\s*(x\w+|alias) "', c["src"], re.M)]
+    picked = picked[: (60 if ctx.tier == "quick" else 1500)]
+    def rename(src, k):
+        names = sorted(set(re.findall(r'^\s*(?:import\s+)?(x\w+|alias) "', src, re.M)))
+        for nm in names:
+            src = WORD(nm).sub(nm + "_" + "abc"[k], src)
+        return src
+    def one(c):
+        files = {"a.go": c["src"], "b.go": rename(c["src"], 1), "c.go": rename(c["src"], 2)}
+        solo = {}
+        for rel, src in files.items():
+            root = ctx.scratch("c11s")
+            cl.write_tree(root, {rel: src, "p.patch": c["patches"][0]})
+            code, out, err = cl.gopatch(ctx.gopatch, root, ["-p", "p.patch", rel])
+            solo[rel] = (code, open(os.path.join(root, rel)).read())
+            shutil.rmtree(root, ignore_errors=True)
+        order = list(files)
+        rng2 = random.Random(c["id"])
+        rng2.shuffle(order)
+        root = ctx.scratch("c11g")
+        cl.write_tree(root, dict(files, **{"p.patch": c["patches"][0]}))
+        code, out, err = cl.gopatch(ctx.gopatch, root, ["-p", "p.patch"] + order)
+        got = {rel: open(os.path.join(root, rel)).read() for rel in files}
+        shutil.rmtree(root, ignore_errors=True)
+        return c, files, solo, order, code, got, err.decode("utf-8", "replace")
+    with ThreadPoolExecutor(max_workers=12) as ex:
+        for c, files, solo, order, code, got, err in ex.map(one, picked):
+            ctx.evaluations += 1
+            ctx.count("grouped_import_runs")
+            if any(v[0] != 0 for v in solo.values()):
+                continue
+            bad = [rel for rel in files if got[rel] != solo[rel][1]]
+            if any(solo[rel][1] != files[rel] for rel in files):
+                ctx.nontrivial.add("grouped:" + c["id"])
+            if bad or code != 0:
+                rel = bad[0] if bad else order[0]
+                ctx.violation(f"{rel}: its imports (or code) after a run over {order} differ from a run on that file alone (exit {code})",
+                              {"input": {"patches": c["patches"], "files": files, "args": order}, "grouped": got.get(rel, "")[:1200],
+                               "solo": solo[rel][1][:1200], "stderr": err[-500:], "reproduce": "gopatch -p p.patch " + " ".join(order)})
 
 def imports_of_source(text):
     """(name, path) pairs of the import declarations of gofmt-formatted source"""
